@@ -4,6 +4,7 @@ import (
 	"fmt"
 	"io"
 	"sync"
+	"sync/atomic"
 
 	"github.com/bmeg/grip/engine/pipeline"
 	"github.com/bmeg/grip/gdbi"
@@ -230,7 +231,9 @@ func (server *GripServer) BulkAdd(stream gripql.Edit_BulkAddServer) error {
 	var insertCount int32
 	var errorCount int32
 
-	elementStream := make(chan *gdbi.GraphElement, 100)
+	// elementStream feeds the BulkAdd call of the graph currently being written,
+	// it is nil while no such call is open
+	var elementStream chan *gdbi.GraphElement
 	wg := &sync.WaitGroup{}
 
 	for {
@@ -240,54 +243,58 @@ func (server *GripServer) BulkAdd(stream gripql.Edit_BulkAddServer) error {
 		}
 		if err != nil {
 			log.WithFields(log.Fields{"error": err}).Error("BulkAdd: streaming error")
-			errorCount++
+			atomic.AddInt32(&errorCount, 1)
 			break
 		}
 
 		if isSchema(element.Graph) {
 			err := "cannot add element to schema graph"
 			log.WithFields(log.Fields{"error": err}).Error("BulkAdd: error")
-			errorCount++
+			atomic.AddInt32(&errorCount, 1)
 			continue
 		}
 
 		// create a BulkAdd stream per graph
 		// close and switch when a new graph is encountered
-		if element.Graph != graphName {
-			close(elementStream)
+		if elementStream == nil || element.Graph != graphName {
+			if elementStream != nil {
+				close(elementStream)
+				elementStream = nil
+			}
+			graphName = element.Graph
 			gdb, err := server.getGraphDB(element.Graph)
 			if err != nil {
-				errorCount++
+				atomic.AddInt32(&errorCount, 1)
 				continue
 			}
 
 			graph, err := gdb.Graph(element.Graph)
 			if err != nil {
 				log.WithFields(log.Fields{"error": err}).Error("BulkAdd: error")
-				errorCount++
+				atomic.AddInt32(&errorCount, 1)
 				continue
 			}
 
-			graphName = element.Graph
-			elementStream = make(chan *gdbi.GraphElement, 100)
+			graphStream := make(chan *gdbi.GraphElement, 100)
+			elementStream = graphStream
 
 			wg.Add(1)
-			go func() {
-				log.WithFields(log.Fields{"graph": element.Graph}).Info("BulkAdd: streaming elements to graph")
-				err := graph.BulkAdd(elementStream)
+			go func(graphName string) {
+				log.WithFields(log.Fields{"graph": graphName}).Info("BulkAdd: streaming elements to graph")
+				err := graph.BulkAdd(graphStream)
 				if err != nil {
-					log.WithFields(log.Fields{"graph": element.Graph, "error": err}).Error("BulkAdd: error")
+					log.WithFields(log.Fields{"graph": graphName, "error": err}).Error("BulkAdd: error")
 					// not a good representation of the true number of errors
-					errorCount++
+					atomic.AddInt32(&errorCount, 1)
 				}
 				wg.Done()
-			}()
+			}(graphName)
 		}
 
 		if element.Vertex != nil {
 			err := element.Vertex.Validate()
 			if err != nil {
-				errorCount++
+				atomic.AddInt32(&errorCount, 1)
 				log.WithFields(log.Fields{"graph": element.Graph, "error": err}).Errorf("BulkAdd: vertex validation failed")
 			} else {
 				insertCount++
@@ -301,7 +308,7 @@ func (server *GripServer) BulkAdd(stream gripql.Edit_BulkAddServer) error {
 			}
 			err := element.Edge.Validate()
 			if err != nil {
-				errorCount++
+				atomic.AddInt32(&errorCount, 1)
 				log.WithFields(log.Fields{"graph": element.Graph, "error": err}).Errorf("BulkAdd: edge validation failed")
 			} else {
 				insertCount++
@@ -310,10 +317,12 @@ func (server *GripServer) BulkAdd(stream gripql.Edit_BulkAddServer) error {
 		}
 	}
 
-	close(elementStream)
+	if elementStream != nil {
+		close(elementStream)
+	}
 	wg.Wait()
 
-	return stream.SendAndClose(&gripql.BulkEditResult{InsertCount: insertCount, ErrorCount: errorCount})
+	return stream.SendAndClose(&gripql.BulkEditResult{InsertCount: insertCount, ErrorCount: atomic.LoadInt32(&errorCount)})
 }
 
 // DeleteVertex deletes a vertex from the server
